@@ -323,6 +323,8 @@ def denote_cmdline(info, ref, rootsets, ast):
             f = st["cif"] or guess_format(payload)
             if f == "hwloc" and payload.startswith(","):
                 raise NoSpec("known-assert-class")
+            if G.absurd_set_token(payload, f == "list"):
+                raise NoSpec("list syntax with a negative or huge number (known finding)")
             r = ref.ask("sscan %s %s" % (f, payload))
             m = re.match(r"sscan (-?\d+) (\S+)", r[0]) if r else None
             if not m:
@@ -521,7 +523,12 @@ def replay_text(kind, arg, tool, args, extra=""):
 def crash_class(args, rc, err):
     if b"hwloc_bitmap_sscanf: Assertion" in err:
         return "bitmap-sscanf-assert"
-    return hang_class(args)
+    h = hang_class(args)
+    if h:
+        return h
+    if rc == 124 and any(G.absurd_set_token(a, "list" in args) for a in args):
+        return "list-syntax-huge-index"
+    return None
 
 
 def _i32(v):
@@ -560,7 +567,8 @@ def check_calc_topology(ctx, kind, arg, ncmd, nmal, rng, corpus_cmds=(), nstdin=
         dump_text = "\n".join(lines[1:]) + "\n"
 
         def tool(args, stdin=b""):
-            rc, out, err = run_tool(calc, targs + args, stdin=stdin, retry=not hang_class(args))
+            slow = hang_class(args) or any(G.absurd_set_token(a, "list" in args) for a in args)
+            rc, out, err = run_tool(calc, targs + args, stdin=stdin, retry=not slow)
             if crashed(rc, err):
                 key = "crash:calc:" + (crash_class(args, rc, err) or "-".join(esc(a) for a in args)[:80])
                 ctx.violation(key, "hwloc-calc crashed / sanitizer report / timeout (rc=%d) on %r" % (rc, args),
@@ -648,7 +656,7 @@ def check_calc_topology(ctx, kind, arg, ncmd, nmal, rng, corpus_cmds=(), nstdin=
             else:
                 args = [rng.choice(["pu:0", "all", "core:all"])] + rng.choice(G.ODD_OPTIONS)
                 cls = "odd-option"
-            if hang_class(args):
+            if hang_class(args) or any(G.absurd_set_token(a) for a in args):
                 ctx.bump("malformed-skipped-known-hang-class")
                 continue
             rc, out, err = tool(args)
@@ -838,6 +846,26 @@ def cross_single(ctx, tool, ref, kind, arg, base):
 
 # ---------------------------------------------------------------------------
 # model vs tool
+MODEL_AS_LIMIT = 1 << 30      # address-space limit of the extracted model (bytes); its normal peak RSS is ~35 MB
+PEAK = {"model_rss_kb": 0}
+
+
+def sh_limited(cmd, timeout):
+    """run the model driver under a hard memory limit: a runaway model is a case-level skip, never an OOM of the machine"""
+    import resource
+
+    def lim():
+        resource.setrlimit(resource.RLIMIT_AS, (MODEL_AS_LIMIT, MODEL_AS_LIMIT))
+    try:
+        p = subprocess.run(["/usr/bin/time", "-f", "HVRSS %M"] + cmd, stdout=subprocess.PIPE, stderr=subprocess.PIPE, timeout=timeout, preexec_fn=lim)
+        m = re.search(rb"HVRSS (\d+)", p.stderr)
+        if m:
+            PEAK["model_rss_kb"] = max(PEAK["model_rss_kb"], int(m.group(1)))
+        return p.returncode, p.stdout, p.stderr
+    except subprocess.TimeoutExpired as e:
+        return 124, e.stdout or b"", (e.stderr or b"") + b"\nTIMEOUT"
+
+
 def run_model(ctx, kind, arg, dump_text, cases, tag):
     if not ctx.drv or not cases:
         return
@@ -848,7 +876,7 @@ def run_model(ctx, kind, arg, dump_text, cases, tag):
             f.write(dump_text)
             for args, stdin, rc, out in sub:
                 f.write("calc %s%s\n" % (" ".join(esc(a) for a in args), "" if stdin is None else " %%< %s" % esc(stdin)))
-        return C.sh([ctx.drv, path], timeout=timeout)
+        return sh_limited([ctx.drv, path], timeout)
     rc, out, err = run(cases, tag, 120)
     if rc != 0:
         # one case exhausts the model's unary fuels (a bit index in the millions): find it, keep the others
@@ -857,6 +885,7 @@ def run_model(ctx, kind, arg, dump_text, cases, tag):
             r1, o1, e1 = run([c], "%s-%d" % (tag, k), 15)
             if r1 != 0:
                 C.log("[C20] model resource limit on %r stdin=%r (%s)" % (c[0], c[1], tag))
+                ctx.bump("model-resource-limit")
                 outs.append("UNMODELLED 9")
             else:
                 outs.append(o1.decode("latin-1").split("\n")[0])
@@ -1091,7 +1120,8 @@ def struct_dump(lines):
     for l in lines:
         if l.startswith("O "):
             kv = dict(x.split("=", 1) for x in l.split(" ")[2:] if "=" in x)
-            res.append((kv["ty"], kv["dp"], kv["os"], kv["li"], kv["cs"], kv["nds"], kv["par"]))
+            # the synthetic format carries OS indexes for the PU and NUMA levels only
+            res.append((kv["ty"], kv["dp"], kv["os"] if kv["ty"] in ("4", "14") else "*", kv["li"], kv["cs"], kv["nds"], kv["par"]))
     return res
 
 
@@ -1456,6 +1486,8 @@ def check(run, replay=None):
         run.cov["topologies"] = {"synthetic": sum(1 for t in topos if t[0] == "synthetic"), "xml": sum(1 for t in topos if t[0] == "xml")}
         run.cov["tools_built_from"] = os.path.join(C.REPO, "utils")
         run.cov["model_driver"] = bool(drv)
+        run.cov["model_driver_peak_rss_kb"] = PEAK["model_rss_kb"]
+        run.cov["model_driver_address_space_limit"] = MODEL_AS_LIMIT
         run.assumptions.append("option parsing of the tools, exit statuses on malformed input and absence of crashes are observed on the ASan+UBSan builds, not proved")
         run.assumptions.append("lstopo / hwloc-diff / hwloc-patch / hwloc-distrib clauses are checked by running the built tools against the library harness (they reduce to C05/C07/C16/C09)")
         return run.finish(proof, trusted=TRUSTED)
